@@ -12,10 +12,11 @@
       node:   e0_in | p2_out | 17          edge:  <node>><node>><key>
       qs (aligned with edits, `*` = nothing):  +-joined from  d (depth) r (register_depth) v (validate)
               h (reg_gate_history of every register) x/<edge> (find_incompatible_edges) l/<label.label> (get_node_by_labels)
-              m (all metrics)
+              m (all metrics)  n (all metrics except the effective depth, whose `_max_depth` recursion can be exponential)
    -> ok errs=<-|class>,… hs=<fnv64 of the canonical state after each edit>,… q=<answers> + the full canonical state
       after edit `full` (default: the last): nodes= edges= nd= ed= regs= nid=
-  dag.metrics ne= np= nc= ops=<op>,<op>,…     circuit built by `add`; model metrics and op-list specifications
+  dag.metrics ne= np= nc= ops=<op>,<op>,… [lite=1]   circuit built by `add`; model metrics and op-list specifications
+      (lite: skip the two results that use the un-memoised `_max_depth` recursion)
 -/
 import Driver.Proto
 import GraphiqModel.Model.Metrics
@@ -154,11 +155,11 @@ def exceptStr {α} (f : α → String) : Except DErr α → String
 def allRegs (c : Dag) : List Reg :=
   (List.range c.nE).map (Reg.mk .e) ++ (List.range c.nP).map (Reg.mk .p) ++ (List.range c.nC).map (Reg.mk .c)
 
-def metricsStr (c : Dag) : String :=
+def metricsStr (c : Dag) (withEff : Bool := true) : String :=
   s!"depth.{Metrics.circuitDepth c}/emit.{Metrics.emitterCount c}/cnot.{Metrics.cnotCount c}" ++
   s!"/unit.{exceptStr toString (Metrics.unitaryCount c)}/meas.{Metrics.measureCount c}" ++
   s!"/med.{exceptStr toString (Metrics.maxEmitDepth c)}/reset.{exceptStr toString (Metrics.maxEmitResetDepth c)}" ++
-  s!"/eff.{exceptStr toString (Metrics.maxEmitEffDepth c)}"
+  (if withEff then s!"/eff.{exceptStr toString (Metrics.maxEmitEffDepth c)}" else "")
 
 def answer (c : Dag) (q : String) : String :=
   match splitChar '/' q with
@@ -174,6 +175,7 @@ def answer (c : Dag) (q : String) : String :=
     | some e => "x:" ++ exceptStr (fun l => emp (String.intercalate "." (sortStrs (l.map Edge.str)))) (c.findIncompatibleEdges e)
   | ["l", ls] => "l:" ++ emp (String.intercalate "." (sortStrs ((c.getNodeByLabels (starList '.' ls)).map NodeId.str)))
   | ["m"] => "m:" ++ metricsStr c
+  | ["n"] => "n:" ++ metricsStr c false
   | _ => "?"
 
 def answers (c : Dag) (qs : String) : String :=
@@ -220,9 +222,10 @@ def dispatch (cmd : String) (a : Args) : Option String :=
       match Metrics.build (getNat a "ne") (getNat a "np") (getNat a "nc") seq with
       | (_, some e) => some s!"err {e.str}"
       | (c, none) =>
-        let rd := exceptStr (fun (t : List Int × List Int × List Int) =>
+        let lite := has a "lite"
+        let rd := if lite then "skipped" else exceptStr (fun (t : List Int × List Int × List Int) =>
           showIntsDot t.1 ++ "/" ++ showIntsDot t.2.1 ++ "/" ++ showIntsDot t.2.2) c.registerDepth
-        some s!"ok m={metricsStr c} regd={rd} {specStr (getNat a "ne") seq c} h={fnv64 (canonState c)}"
+        some s!"ok m={metricsStr c (!lite)} regd={rd} {specStr (getNat a "ne") seq c} h={fnv64 (canonState c)}"
   | _ => none
 
 end Graphiq.CmdDag
